@@ -120,8 +120,9 @@ def bool_tree(rng, t, depth):
 
 
 class Prog:
-    def __init__(self, pid, t, tree, aop, mode, boolean=False, alt=None, cls=""):
+    def __init__(self, pid, t, tree, aop, mode, boolean=False, alt=None, cls="", std17=False):
         self.pid, self.t, self.tree, self.aop, self.mode, self.boolean, self.alt, self.cls = pid, t, tree, aop, mode, boolean, alt, cls
+        self.std17 = std17      # statement only accepted under C++17 (boolean expression assigned to a numeric tensor)
     def text(self):
         return "r %s %s" % (self.aop, self.tree.text())
     def render(self):
@@ -174,9 +175,9 @@ def int_ok(tree, aop):
 def programs(tier, rng):
     progs = []
     n = [0]
-    def add(t, tree, aop, mode=None, boolean=False, alt=None, cls="tree"):
+    def add(t, tree, aop, mode=None, boolean=False, alt=None, cls="tree", std17=False):
         n[0] += 1
-        progs.append(Prog("P%d" % n[0], t, tree, aop, tree_mode(tree, t, aop) if mode is None else mode, boolean, alt, cls))
+        progs.append(Prog("P%d" % n[0], t, tree, aop, tree_mode(tree, t, aop) if mode is None else mode, boolean, alt, cls, std17))
     L = lambda x: Node("leaf", x)
     # ---- every single operator alone, per type (atoms)
     for t in TYPES:
@@ -198,6 +199,13 @@ def programs(tier, rng):
             add(t, Node("logic", "&&", [Node("cmp", "<", [L("a"), L("b")]), Node("cmp", ">", [L("a"), L("c")])]), "=", mode=0 if not integ else 1, boolean=True, cls="atom")
             add(t, Node("logic", "||", [Node("cmp", "<", [L("a"), L("b")]), Node("cmp", ">", [L("a"), L("c")])]), "=", mode=0 if not integ else 1, boolean=True, cls="atom")
             add(t, Node("not", "!", [Node("cmp", "<=", [L("a"), L("b")])]), "=", mode=0 if not integ else 1, boolean=True, cls="atom")
+        if not cplx:
+            # masking idiom: a comparison / logical expression as the right-hand side of a NUMERIC destination (accepted under C++17 only)
+            for aop in ("=", "+=", "-=", "*=") + (("/=",) if fl else ()):
+                add(t, Node("cmp", rng.choice(CMP), [L("a"), L("b")]), aop, mode=1 if integ else 4, cls="boolrhs", std17=True)
+            add(t, Node("logic", "&&", [Node("cmp", ">", [L("a"), L("b")]), Node("cmp", "<=", [L("a"), L("c")])]), "*=", mode=1 if integ else 4, cls="boolrhs", std17=True)
+            # (`r += !(a == b)` is rejected in every configuration: no assign_add for the unary ! node; `=` is accepted)
+            add(t, Node("not", "!", [Node("cmp", "==", [L("a"), L("b")])]), "=", mode=1 if integ else 4, cls="boolrhs", std17=True)
         if cplx: add(t, Node("fn1", "conj", [L("a")]), "=", cls="atom")
         if fl:
             add(t, Node("fn1", "sqrt", [L("a")]), "=", cls="atom")
@@ -286,7 +294,8 @@ def plan(tier, seed, rng):
     units = []
     per = 50
     for cfg in std_configs(tier, seed, extra=("-ffp-contract=off",)):
-        for ch in chunks(allcases, per):
+        usable = [pc for pc in allcases if not (pc[0].std17 and cfg.std == "c++14")]
+        for ch in chunks(usable, per):
             used = {}
             for p, c in ch: used[p.pid] = p
             prelude = PRELUDE_HEAD + "".join(p.render() for p in used.values())
